@@ -131,6 +131,11 @@ func isHarnessPanic(stack string) bool {
 		if strings.HasPrefix(l, "runtime.") || strings.HasPrefix(l, "runtime/") {
 			continue
 		}
+		if strings.HasPrefix(l, "verif.sim/simrt/simsync.") {
+			// the stand-ins for sync's types panic where the real ones do (unlock of an unlocked mutex, ...): the
+			// caller is to blame
+			continue
+		}
 		return strings.HasPrefix(l, "verif.sim/harness.") || strings.HasPrefix(l, "verif.sim/simrt")
 	}
 	return false
@@ -147,7 +152,7 @@ func panicSite(stack string) string {
 		if !seen || strings.HasPrefix(l, "\t") || l == "" {
 			continue
 		}
-		if strings.HasPrefix(l, "runtime.") || strings.HasPrefix(l, "runtime/") || strings.HasPrefix(l, "testing.") {
+		if strings.HasPrefix(l, "runtime.") || strings.HasPrefix(l, "runtime/") || strings.HasPrefix(l, "testing.") || strings.HasPrefix(l, "verif.sim/simrt/simsync.") {
 			continue
 		}
 		if i := strings.LastIndex(l, "("); i > 0 {
